@@ -28,7 +28,8 @@ def FLOORS(tier):
     q = tier == "quick"
     f = {"convert_solution-checks": 3000 if q else 10 ** 5, "export:Q": 60, "export:hJ": 60,
          "export:matrix_to_qubo": 60, "export:qubo_to_matrix": 100, "real-coefficients": 100,
-         "raw-repeated-labels": 50, "all-ones-solution": 30, "user-mapping:set_mapping": 60, "user-mapping:set_reverse_mapping": 60}
+         "raw-repeated-labels": 50, "all-ones-solution": 30, "user-mapping:set_mapping": 60, "user-mapping:set_reverse_mapping": 60,
+         "export-before-relabelling": 80, "term-added-after-user-mapping": 40}
     for fn, (kind, d2) in FREE.items():
         for t in SRC[kind]:
             if d2 and t in ("PUBO", "PCBO", "PUSO", "PCSO", "PUBOMatrix", "PUSOMatrix"):
@@ -124,6 +125,12 @@ def case_method(ctx, rng):
     M = gen.model_of(T, terms)
     if rng.random() < 0.7:
         M.refresh()
+    if rng.random() < 0.25 and M.num_binary_variables:
+        # an earlier export on the same object, before the relabelling below (results must not be remembered)
+        pre = rng.choice(["qubo", "pubo", "quso", "puso"])
+        if ref.from_raw(kind, dict(M)).degree() <= 2 or pre in ("pubo", "puso"):
+            ctx.call("to_" + pre, getattr(M, "to_" + pre), _w={"type": tn, "terms": dict(M)})
+            ctx.cat("export-before-relabelling")
     if rng.random() < 0.4 and M.num_binary_variables:
         vs = list(M.mapping)
         perm = list(range(len(vs)))
@@ -134,8 +141,25 @@ def case_method(ctx, rng):
         else:
             M.set_reverse_mapping({perm[i]: v for i, v in enumerate(vs)})
             ctx.cat("user-mapping:set_reverse_mapping")
-        if {v: k for k, v in M.mapping.items()} != M.reverse_mapping:
-            ctx.violation("set_mapping:reverse-not-inverse", "after a user mapping, mapping %r and reverse_mapping %r are not inverse" % (M.mapping, M.reverse_mapping),
+        if rng.random() < 0.4:
+            # the model keeps growing after the user mapping: a new label must get the next free integer
+            if all(isinstance(x, int) for x in vs):
+                newlab, pair_ok = max(vs) + 17, True
+            elif all(isinstance(x, str) for x in vs):
+                newlab, pair_ok = "zz_fresh", True
+            else:
+                newlab, pair_ok = ("fresh", len(vs)), False      # mixed label types: labels of one key must be orderable
+            try:
+                M[(newlab,)] += rng.choice(gen.DYADIC)
+                if maxd >= 2 and pair_ok:
+                    M[(newlab, vs[0])] += rng.choice(gen.DYADIC)
+                ctx.cat("term-added-after-user-mapping")
+            except KeyError:
+                pass
+        mpn = M.mapping
+        if {v: k for k, v in mpn.items()} != M.reverse_mapping or len(set(mpn.values())) != len(mpn) or \
+                set(mpn.values()) != set(range(len(mpn))):
+            ctx.violation("set_mapping:mapping-not-a-bijection-onto-range", "after a user mapping (and later edits), mapping %r / reverse_mapping %r" % (mpn, M.reverse_mapping),
                           {"type": tn, "terms": dict(M)})
             return
     src = ref.from_raw(kind, dict(M))
